@@ -31,7 +31,7 @@ theorem computeCyclepoints_scale (a : Rat) (ha : 0 < a) (sig : List Rat) (pad : 
 /-- voltage features and band_amp scale with `a` (amp is homogeneous, E5), durations and symmetries do not change. -/
 theorem shapePeak_scale (a : Rat) (ha : 0 < a) (x amp : List Rat) (rows : List SampleRow) :
     shapePeak (scaleSig a x) (scaleSig a amp) rows = (shapePeak x amp rows).map fun l => l.map (ShapeRow.scaleVolts a) := by
-  exact CovAux.shapePeak_scale a x amp rows
+  exact CovAux.shapePeak_scale a ha x amp rows
 
 theorem ratioMinMax_scale (a : Rat) (ha : 0 < a) (x y : Rat) : ratioMinMax (a * x) (a * y) = ratioMinMax x y := by
   exact CovAux.ratioMinMax_scale a ha x y
